@@ -31,8 +31,8 @@ ASSUMPTIONS = ["contractive / convex problem families (|s|<=0.5, |W|~0.5) so eve
                "tolerances: 1e-8 relative to the gradient scale for direct functionals, 1e-6 for iterative ones "
                "(their stopping tolerance is 1e-11)"]
 BUDGET = {"quick": {"worker_timeout": 900, "case_timeout": 180}, "thorough": {"worker_timeout": 3300, "case_timeout": 300}}
-REQUIRED_COUNTERS = {"quick": {"history_grad2_compared": 150, "abort_reuse_compared": 40, "refreeze_stages": 100, "second_order_compared": 1500, "objparams_substitutions": 5000},
-                     "thorough": {"history_grad2_compared": 1500, "abort_reuse_compared": 400, "refreeze_stages": 1000, "second_order_compared": 9000, "objparams_substitutions": 30000}}
+REQUIRED_COUNTERS = {"quick": {"late_backward_compared": 30, "history_grad2_compared": 150, "abort_reuse_compared": 40, "refreeze_stages": 100, "second_order_compared": 1500, "objparams_substitutions": 5000},
+                     "thorough": {"late_backward_compared": 300, "history_grad2_compared": 1500, "abort_reuse_compared": 400, "refreeze_stages": 1000, "second_order_compared": 9000, "objparams_substitutions": 30000}}
 
 FNAMES = list(funcs.FUNCTIONALS) + ["mcquad:mh"]
 
